@@ -572,7 +572,8 @@ def check_unit(ctx, w):
         genv = expr.FEnv(g.node, params=('offset',), inline=False)
         tr = expr.assign_trace(g.node, genv)
         off = tr.get('offset')
-        want_adv = ('=', expr.spec_nf('offset + unit_length + structs.initial_length_field_size()'))
+        # x = x + a + b is normalised to x += a + b (sa/canon.py N2)
+        want_adv = ('+=', expr.spec_nf('unit_length + structs.initial_length_field_size()'))
         ctx.ob('W-UNIT', g.construct, 'next unit = offset + unit_length + initial length size', off is not None and off[-1] == want_adv, got=off, expected=want_adv)
         whiles = [n for n in ast.walk(g.node) if isinstance(n, ast.While)]
         ctx.ob('W-UNIT', g.construct, 'until the section size', len(whiles) == 1 and expr.cond_str(whiles[0].test, genv) == expr.spec_cond('offset < size') and
